@@ -23,7 +23,7 @@ ASSUMPTIONS = [
     'A1 a cache dict is shared only between calls whose merged stylesheet snippet table is equal (the cache carries no identity of the table it was built from)',
     'A2 answers of the simulated output.field/output.text callbacks contain no line-break characters; a pushed text containing a line break or the configured newline is returned unchanged',
     'A3 results of lorem-bearing calls are compared modulo the pinned global `random` stream (random.seed(pin) before every call, in the system under test and in the reference)',
-    'A4 option values have their documented types',
+    'A4 option values have their documented types; output.indent and output.baseIndent contain no line breaks (indentation is what follows a line break)',
     'A5 abbreviations are strings (pre-parsed trees are not part of expand()\'s contract)',
     'A6 no concurrent or re-entrant calls (the properties quantify over histories, not schedules)',
     'reference = the same py-emmet working tree imported into an import-only zygote and forked per call; a defect that is present identically in a pristine interpreter is invisible to the differential oracle',
